@@ -120,7 +120,7 @@ def space():
             if (schema, f) in NUMBER_FIELDS:
                 vals += [qv(x) for x in NUMERIC_STRINGS]
             if not vals:
-                vals += [qv(x) for x in ("active", "42", "TRUE", "x")]
+                vals += [qv(x) for x in ("active", "42", "TRUE", "x", "true", "false", " false ", "True", "null", "[a]", "1.5")]     # texts that SPELL another kind
             vals += WRONG_KINDS
             for v in vals:
                 for p in PLACEMENTS:
